@@ -239,7 +239,9 @@ claim('C15',
       'schema levels, in the positions the loop declares; _is_list_like / _is_map_like test exactly the LIST / MAP shape of '
       'the specification; the loop takes its five decisions (new row, value, null element, null row, continuation of the '
       'previous page\'s row) on the conditions the algorithm prescribes - the last one does not (known finding K15a); map '
-      'rows are dict(zip(keys, values)) or None.',
+      'rows are dict(zip(keys, values)) or None; on v2 pages the definition levels of a repeated column are read whatever '
+      'the null count, and every value arm open to repeated columns assembles records or refuses them (the PLAIN arm '
+      'does neither: known finding K15b).',
       'the lists and dicts produced for arbitrary level arrays - the loop is data dependent and only its branch conditions '
       'are compared with the algorithm; dictionary dereference; deeper nesting',
       'Claimed for this clause only. The design round declared C15 not applicable; reading the loop for branch conditions '
